@@ -149,24 +149,53 @@ Proof. reflexivity. Qed.
 
 (* ------------------------------------------------------------------ link *)
 
+Lemma ov_eqb_iff a b : ov_eqb a b = true <-> a = b.
+Proof.
+  destruct a as [x|], b as [y|]; cbn; split; intros H; try discriminate; try reflexivity.
+  - apply value_eqb_eq in H. subst. reflexivity.
+  - inversion H; subst. apply value_eqb_refl.
+Qed.
+
+Lemma ov_list_eq a b : list_eqb ov_eqb a b = true <-> a = b.
+Proof. apply list_eqb_eq. exact ov_eqb_iff. Qed.
+
+Lemma model_all_ok c :
+  lossless (c_ty c) = true -> wf (c_ty c) (c_val c) = true ->
+  forallb (wf (c_ty c)) (c_rest c) = true -> valid_utf8 (c_tag c) = true ->
+  model_all c = Some (map (fun v => (c_tag c, v)) (c_val c :: c_rest c)).
+Proof.
+  intros Hl Hwf Hrest Hu. unfold model_all. rewrite slice_roundtrip_ok.
+  - rewrite map_map. reflexivity.
+  - apply Forall_forall. intros x Hx. apply in_map_iff in Hx. destruct Hx as (v & <- & Hv).
+    cbn [elem_ok reg_find]. rewrite bytes_eqb_refl. repeat split; try assumption.
+    destruct Hv as [<-|Hv]; [exact Hwf|]. rewrite forallb_forall in Hrest. exact (Hrest v Hv).
+Qed.
+
 Lemma model_agreement_implies_property c :
-  lossless (c_ty c) = true -> wf (c_ty c) (c_val c) = true -> valid_utf8 (c_tag c) = true ->
+  lossless (c_ty c) = true -> wf (c_ty c) (c_val c) = true ->
+  forallb (wf (c_ty c)) (c_rest c) = true -> valid_utf8 (c_tag c) = true ->
   check_case c = true -> holds_on c = true.
 Proof.
-  intros Hl Hwf Hu Hc. unfold holds_on. destruct (c_lib c); [|reflexivity].
-  unfold check_case in Hc. apply andb_true_iff in Hc. destruct Hc as [_ Hc].
+  intros Hl Hwf Hrest Hu Hc. unfold holds_on. destruct (c_lib c); [|reflexivity].
+  unfold check_case in Hc. apply andb_true_iff in Hc. destruct Hc as [Hc Hr].
+  apply andb_true_iff in Hc. destruct Hc as [_ Hc].
+  pose proof (model_all_ok c Hl Hwf Hrest Hu) as Hall.
   assert (Hm : model_dec c = Some (c_tag c, c_val c)).
   { unfold model_dec.
     destruct ((c_route c =? 1) || (c_route c =? 2)).
-    - rewrite slice_roundtrip_ok; [reflexivity|]. constructor; [|constructor].
-      cbn [elem_ok reg_find]. rewrite bytes_eqb_refl. auto.
+    - rewrite Hall. reflexivity.
     - destruct (c_route c =? 3).
       + rewrite component_state_ok by assumption. reflexivity.
       + rewrite lossless_roundtrip by assumption. reflexivity. }
   rewrite Hm in Hc. destruct (o_dec c) as [w|]; [|discriminate].
   apply andb_true_iff in Hc. destruct Hc as [Ht Hv].
   apply value_eqb_eq in Hv. subst w. cbn [ov_eqb opt_eqb]. rewrite value_eqb_refl. cbn [andb].
-  rewrite bytes_eqb_sym. exact Ht.
+  rewrite bytes_eqb_sym, Ht. cbn [andb].
+  destruct ((c_route c =? 1) || (c_route c =? 2)).
+  - rewrite Hall in Hr. cbn [map] in Hr. apply andb_true_iff in Hr. destruct Hr as [Hr _].
+    rewrite map_map in Hr. cbn [snd] in Hr. apply ov_list_eq in Hr. rewrite <- Hr. apply ov_list_eq. reflexivity.
+  - apply andb_true_iff in Hr. destruct Hr as [R1 R2].
+    destruct (c_rest c); [|discriminate]. destruct (o_rest c); [reflexivity|discriminate].
 Qed.
 
 (** non-vacuity: a message-like value with promoted metadata, a byte slice and a buffer *)
